@@ -5,13 +5,13 @@ import math
 
 from hypothesis import strategies as st
 
-from pbt import netgen, oracles
+from pbt import netgen, oracles, refmodel
 from pbt.core import Result, pf_tol, silence, pf_outcome
 
 ID = "C11"
 LEVEL = "exploration"
-EXAMPLES = {"quick": 320, "thorough": 6400}
-DEADLINE_S = {"quick": 300, "thorough": 3000}
+EXAMPLES = {"quick": 480, "thorough": 8000}
+DEADLINE_S = {"quick": 400, "thorough": 3000}
 SHRINK_S = {"quick": 30, "thorough": 120}
 RULE = ("Hypothesis draws a network recipe of the '3ph' family (1-3 voltage levels, <= 9 buses, ext_grids with "
         "s_sc_max/rx_max/r0x0_max/x0x_max, lines with r0/x0/c0, 2W transformers with vk0/vkr0/mag0_percent/mag0_rx/"
@@ -38,18 +38,21 @@ ASSUMPTIONS = ["runpp_3ph stops its outer loop at a fixed 3e-8 p.u. positive-seq
                "share is computed from the reported voltages with the documented conversion",
                "non-convergence (LoadflowNotConverged) and documented rejections are legal and counted as skipped"]
 
-LEVEL_SETS = [[20.0], [10.0], [0.4], [0.4], [20.0, 0.4], [20.0, 0.4], [10.0, 0.4], [110.0, 20.0], [110.0, 10.0],
-              [110.0, 20.0, 0.4]]
-PROFILE = netgen.profile(
-    level_sets=LEVEL_SETS, nb_level=(1, 4), nb_max=9,
-    bus_kinds={"load": 5, "sgen": 3, "gen": 0, "storage": 2, "shunt": 0, "ward": 0, "xward": 0, "motor": 0,
+LEVEL_SETS = [[20.0, 0.4], [10.0, 0.4], [0.4], [110.0, 20.0], [20.0, 0.4], [20.0], [110.0, 10.0], [110.0, 20.0, 0.4], [10.0],
+              [10.0, 0.4], [110.0, 20.0, 0.4]]
+_BASE = dict(
+    level_sets=LEVEL_SETS,
+    bus_kinds={"load": 5, "sgen": 3, "gen": 0, "storage": 3, "shunt": 0, "ward": 0, "xward": 0, "motor": 0,
                "asymmetric_load": 5, "asymmetric_sgen": 3},
     branch_kinds={"line": 8, "impedance": 0, "bb": 1}, extra_branches=(0, 2),
     trafo3w=False, zip=False, switch_z=False, dcline=False, slack_gen=False, gen_qlims=False,
     oos=0.06, open_prob=0.25, noslack_island=True, second_slack=3,
     sn_choices=(1.0, 1.0, 10.0, 0.5, 100.0))
+PROFILES = {"quick": netgen.profile(nb_level=(1, 4), nb_max=9, **_BASE),
+            "thorough": netgen.profile(nb_level=(1, 5), nb_max=12, **_BASE)}
 
 PHASES = ("a", "b", "c")
+PTOL, PREL, VM_TOL, VA_TOL = 2e-6, 1e-6, 2e-6, 2e-4     # see ASSUMPTIONS
 A120 = cmath.exp(2j * math.pi / 3)
 
 
@@ -72,7 +75,7 @@ def _decorate(draw, recipe):
                      c0_nf_per_km=round(e["c_nf_per_km"] * draw(q(0.3, 1.0, nd=1)), 4))
         elif t == "trafo":
             sh = e.get("shift_degree", 0.0)
-            vg = "YNyn" if sh % 60 == 0 else draw(st.sampled_from(["Dyn", "Dyn", "Yzn"]))
+            vg = "YNyn" if sh % 60 == 0 else draw(st.sampled_from(["Dyn", "Yzn"]))
             vk0 = round(e["vk_percent"] * draw(q(0.8, 1.0, nd=2)), 4)
             vkr0 = round(min(e["vkr_percent"] * draw(q(0.8, 1.2, nd=2)), vk0), 4)
             e.update(vector_group=vg, vk0_percent=vk0, vkr0_percent=vkr0,
@@ -120,19 +123,20 @@ def live_part(recipe):
 
 @st.composite
 def _case(draw, tier):
-    recipe = draw(netgen.grid(PROFILE))
+    recipe = draw(netgen.grid(PROFILES[tier]))
     recipe = draw(_decorate(recipe))
-    balanced = draw(st.booleans())
+    balanced = draw(st.sampled_from([False, False, True]))
     # shapes of already classified defects are avoided by construction in most cases (a minority still hits them)
     often = lambda n: draw(st.sampled_from([True] * n + [False]))     # noqa: E731  (True = avoid the shape; shrinks to True)
-    avoid = {"slack_elements": often(5), "storage": often(5), "eg_zero_seq": often(4), "oos_bus": often(5),
-             "only_slack": often(9)}
+    avoid = {"slack_elements": often(9), "storage": often(3), "eg_zero_seq": often(5), "oos_bus": often(7),
+             "only_slack": often(12), "eg_same_node": often(5)}
     if avoid["oos_bus"]:
         for b in recipe["buses"]:
             b.pop("in_service", None)
     node = netgen.nodes_of(recipe)
     slack = {node[e["bus"]] for e in recipe["el"] if e["t"] == "ext_grid"}
     el = []
+    eg_nodes = set()
     for e in recipe["el"]:
         if avoid["storage"] and e["t"] == "storage":
             e = dict(e, t="load", p_mw=abs(e["p_mw"]))
@@ -140,8 +144,12 @@ def _case(draw, tier):
         if avoid["slack_elements"] and e["t"] in ("load", "sgen", "storage", "asymmetric_load", "asymmetric_sgen") \
                 and node[e["bus"]] in slack:
             continue
-        if avoid["eg_zero_seq"] and e["t"] == "ext_grid":
-            e = dict(e, x0x_max=1.0, r0x0_max=e["rx_max"])
+        if e["t"] == "ext_grid":
+            if avoid["eg_same_node"] and node[e["bus"]] in eg_nodes:
+                continue
+            eg_nodes.add(node[e["bus"]])
+            if avoid["eg_zero_seq"]:
+                e = dict(e, x0x_max=1.0, r0x0_max=e["rx_max"])
         if balanced and e["t"].startswith("asymmetric"):
             e = dict(e, p_b_mw=e["p_a_mw"], p_c_mw=e["p_a_mw"], q_b_mvar=e["q_a_mvar"], q_c_mvar=e["q_a_mvar"])
         el.append(e)
@@ -243,6 +251,55 @@ def run_3ph(net, opt, sn):
         runpp_3ph(net, tolerance_mva=pf_tol(sn), max_iteration=60, trafo_model="t", **opt)
 
 
+def to_seq(x):
+    """phase (a, b, c) -> sequence (0, 1, 2) components"""
+    a = A120
+    return [(x[0] + x[1] + x[2]) / 3.0, (x[0] + a * x[1] + a * a * x[2]) / 3.0, (x[0] + a * a * x[1] + a * x[2]) / 3.0]
+
+
+def reported_seq_currents(rt, idx, side, Vb):
+    """sequence currents [kA] into a branch terminal from the reported phase powers and phase voltages"""
+    return to_seq([(complex(_nz(rt.at[idx, "p_%s_%s_mw" % (x, side)]), _nz(rt.at[idx, "q_%s_%s_mvar" % (x, side)])) / Vb[k]).conjugate()
+                   for k, x in enumerate(PHASES)])
+
+
+def line_seq_currents(net, idx, Vf012, Vt012):
+    """documented line model (doc/elements/line.rst): three decoupled pi sections; positive = negative sequence from
+    r/x/c/g, zero sequence from r0/x0/c0 -> ([If0, If1, If2], [It0, It1, It2]) in kA for phase-earth voltages in kV"""
+    r = net.line.loc[idx]
+    par, ln, w = int(r.parallel), float(r.length_km), 2 * math.pi * net.f_hz
+    z1 = complex(r.r_ohm_per_km, r.x_ohm_per_km) * ln / par
+    y1 = complex(refmodel._nan0(r.get("g_us_per_km")) * 1e-6, w * r.c_nf_per_km * 1e-9) * ln * par
+    z0 = complex(r.r0_ohm_per_km, r.x0_ohm_per_km) * ln / par
+    y0 = complex(0.0, w * r.c0_nf_per_km * 1e-9) * ln * par
+    If, It = [], []
+    for s, (z, y) in enumerate(((z0, y0), (z1, y1), (z1, y1))):
+        If.append((Vf012[s] - Vt012[s]) / z + Vf012[s] * y / 2)
+        It.append((Vt012[s] - Vf012[s]) / z + Vt012[s] * y / 2)
+    return If, It
+
+
+def trafo_seq_currents(net, idx, Vh012, Vl012, angles):
+    """documented two-winding transformer model in the positive and the negative sequence (doc/powerflow/ac_3ph.rst:
+    'shift is reversed in negative sequence') -> {1: (Ih, Il), 2: (Ih, Il)} in kA for phase-earth voltages in kV"""
+    r = net.trafo.loc[idx]
+    shift = float(r.shift_degree) if angles else 0.0
+    vh, vl, sh = refmodel.tap_adjust(r.vn_hv_kv, r.vn_lv_kv, shift, r.get("tap_changer_type"), r.get("tap_side"), r.get("tap_pos"),
+                                     r.get("tap_neutral"), r.get("tap_step_percent"), r.get("tap_step_degree"))
+    rr = refmodel._nan0(r.get("leakage_resistance_ratio_hv"), 0.5) if "leakage_resistance_ratio_hv" in net.trafo else 0.5
+    xr = refmodel._nan0(r.get("leakage_reactance_ratio_hv"), 0.5) if "leakage_reactance_ratio_hv" in net.trafo else 0.5
+    out = {}
+    for s, sgn in ((1, 1.0), (2, -1.0)):
+        Vh, Vl = Vh012[s] * refmodel.SQ3, Vl012[s] * refmodel.SQ3
+        if abs(Vh) == 0 or abs(Vl) == 0:
+            out[s] = (0j, 0j)
+            continue
+        Sh, Sl = refmodel.trafo2w_core(Vh, Vl, r.sn_mva, vh, vl, sgn * sh, r.vk_percent, r.vkr_percent, r.pfe_kw, r.i0_percent,
+                                       model="t", parallel=int(r.parallel), rr=rr, xr=xr)
+        out[s] = ((Sh / (3 * Vh012[s])).conjugate(), (Sl / (3 * Vl012[s])).conjugate())
+    return out
+
+
 def classify_balance(net, bs, parts, mis, Vn, tol):
     """root-cause class of a per-phase balance failure, from facts about the node and the observed mismatch"""
     eg = net.ext_grid[net.ext_grid.bus.isin(bs) & net.ext_grid.in_service]
@@ -264,16 +321,25 @@ def classify_balance(net, bs, parts, mis, Vn, tol):
         cls = "other"
     else:
         eg0_differs = bool(((eg.x0x_max != 1.0) | (eg.r0x0_max != eg.rx_max)).any())
-        has_demand = any(abs(x) > 0 for x in s_el)
         s_eg = [sum(-s[k] for w, s in parts if w.startswith("ext_grid.")) for k in range(3)]
-        if has_demand and small([mis[k] - s_el[k] for k in range(3)]):
-            return "slack-bus-demand"         # the mismatch is exactly the demand connected to the ext_grid node
-        if len(eg) > 1 and small([mis[k] + s_eg[k] * (len(eg) - 1) / len(eg) for k in range(3)]):
-            return "slack-ext-grid-duplicated"   # every ext_grid of the node reports the whole node power
-        if eg0_differs and zero_seq_current(mis):
-            return "slack-zero-seq-admittance"
-        if eg0_differs and has_demand and zero_seq_current([mis[k] - s_el[k] for k in range(3)]):
-            return "slack-bus-demand+slack-zero-seq-admittance"
+        # explainable terms: demand at the ext_grid node is left out of res_ext_grid_3ph; every ext_grid of a node
+        # reports the whole node power; the rest is one common zero-sequence current (ext_grid zero-seq admittance)
+        terms = []
+        if any(abs(x) > 0 for x in s_el):
+            terms.append(("slack-bus-demand", [-x for x in s_el]))
+        if len(eg) > 1:
+            terms.append(("slack-ext-grid-duplicated", [x * (len(eg) - 1) / len(eg) for x in s_eg]))
+        for mask in sorted(range(1, 2 ** len(terms)), key=lambda m: bin(m).count("1")):
+            names = [terms[i][0] for i in range(len(terms)) if mask >> i & 1]
+            d = [mis[k] + sum(terms[i][1][k] for i in range(len(terms)) if mask >> i & 1) for k in range(3)]
+            if small(d):
+                return "+".join(names)
+        if eg0_differs:
+            for mask in sorted(range(0, 2 ** len(terms)), key=lambda m: bin(m).count("1")):
+                names = [terms[i][0] for i in range(len(terms)) if mask >> i & 1]
+                d = [mis[k] + sum(terms[i][1][k] for i in range(len(terms)) if mask >> i & 1) for k in range(3)]
+                if zero_seq_current(d):
+                    return "+".join(names + ["slack-zero-seq-admittance"])
         cls = "other-slack" + ("-n%d" % len(eg) if len(eg) > 1 else "")
     if any(len(net[tb]) and "type" in net[tb] and
            (net[tb].bus.isin(bs) & net[tb].in_service & (net[tb].type == "delta")).any() for tb in list(ASYM) + ["load", "sgen"]):
@@ -319,8 +385,8 @@ def check(case):
         res.fail("3ph/nan-results/" + cls, vm_a=[float(v) for v in net.res_bus_3ph.vm_a_pu.values][:6], opt=opt)
         return res
 
-    ptol = 2e-6 * max(1.0, sn)
-    prel = 1e-6
+    ptol = PTOL * max(1.0, sn)
+    prel = PREL
     node = oracles.fused_nodes(net)
     groups = {}
     for b, n in node.items():
@@ -413,8 +479,9 @@ def check(case):
         if max(abs(m) for m in mis) > tol:
             # root-cause classification from facts about the node and the observed mismatch
             cls = classify_balance(net, bs, parts, mis, Vn, tol)
-            causes.add(cls)
-            res.fail("B/balance/" + cls, node=[int(b) for b in buses], mismatch_mva=[[m.real, m.imag] for m in mis], tol=tol,
+            for c in cls.split("+"):       # one failure per (atomic) root cause that explains the mismatch
+                causes.add(c)
+                res.fail("B/balance/" + c, explained_by=cls, node=[int(b) for b in buses], mismatch_mva=[[m.real, m.imag] for m in mis], tol=tol,
                      parts=[(w, [[v.real, v.imag] for v in s]) for w, s in parts][:10], opt=opt)
 
     # ---- B3: res_bus_3ph p/q = sum of the reported element phase values (load convention)
@@ -458,12 +525,48 @@ def check(case):
                     i_exp = abs(s) / abs(Vb[k])
                     if abs(i_rep - i_exp) > 1e-7 + 1e-5 * max(i_exp, abs(i_rep)) + ptol / abs(Vb[k]):
                         res.fail("B/current/%s" % tab, element=[tab, int(idx)], side=side, phase=x, i_ka=float(i_rep), s_over_v=i_exp)
+            if ok and tab == "line":
+                for bcol, side in ends:
+                    Vb = V[t.at[idx, bcol]]
+                    i_c = [(complex(_nz(rt.at[idx, "p_%s_%s_mw" % (x, side)]), _nz(rt.at[idx, "q_%s_%s_mvar" % (x, side)])) / Vb[k]).conjugate()
+                           for k, x in enumerate(PHASES)]
+                    i_n, i_rep = abs(sum(i_c)), float(rt.at[idx, "i_n_%s_ka" % side])
+                    if abs(i_n - i_rep) > 1e-7 + 1e-5 * max(abs(x) for x in i_c) + 3 * ptol / abs(Vb[0]):
+                        res.fail("B/neutral-current/line", element=[tab, int(idx)], side=side, i_n_ka=i_rep, sum_of_phase_currents=i_n)
             if ok:
                 for k, x in enumerate(PHASES):
                     pl = complex(_nz(rt.at[idx, "pl_%s_mw" % x]), _nz(rt.at[idx, "ql_%s_mvar" % x]))
                     if not _close(pl, tot[k], ptol, prel):
                         res.fail("B/loss/%s" % tab, element=[tab, int(idx)], phase=x, reported=[pl.real, pl.imag],
                                  from_plus_to=[tot[k].real, tot[k].imag])
+
+    # ---- C: reported branch flows follow the documented sequence models at the reported voltages
+    sw_open = {(et, int(el)) for et, el, cl in zip(net.switch.et.values, net.switch.element.values, net.switch.closed.values)
+               if et != "b" and not cl}
+    for idx in net.line.index[net.line.in_service]:
+        Vf, Vt = V[net.line.at[idx, "from_bus"]], V[net.line.at[idx, "to_bus"]]
+        if Vf is None or Vt is None or ("l", int(idx)) in sw_open or idx not in net.res_line_3ph.index:
+            continue
+        ref = line_seq_currents(net, idx, to_seq(Vf), to_seq(Vt))
+        for (side, Vb), ref_i in zip((("from", Vf), ("to", Vt)), ref):
+            rep = reported_seq_currents(net.res_line_3ph, idx, side, Vb)
+            scale = max(abs(x) for x in ref[0] + ref[1] + rep)
+            for sq in range(3):
+                if abs(rep[sq] - ref_i[sq]) > 1e-7 + 2e-5 * scale + ptol / abs(Vb[0]):
+                    res.fail("C/line-seq%d" % sq, element=["line", int(idx)], side=side, reported_ka=[rep[sq].real, rep[sq].imag],
+                             model_ka=[ref_i[sq].real, ref_i[sq].imag])
+    for idx in net.trafo.index[net.trafo.in_service]:
+        Vh, Vl = V[net.trafo.at[idx, "hv_bus"]], V[net.trafo.at[idx, "lv_bus"]]
+        if Vh is None or Vl is None or ("t", int(idx)) in sw_open or idx not in net.res_trafo_3ph.index:
+            continue
+        ref = trafo_seq_currents(net, idx, to_seq(Vh), to_seq(Vl), opt["calculate_voltage_angles"])
+        reps = {"hv": reported_seq_currents(net.res_trafo_3ph, idx, "hv", Vh), "lv": reported_seq_currents(net.res_trafo_3ph, idx, "lv", Vl)}
+        for sq in (1, 2):
+            for k, (side, Vb) in enumerate((("hv", Vh), ("lv", Vl))):
+                scale = max(abs(ref[1][k]), abs(ref[2][k]), abs(reps[side][1]), abs(reps[side][2]))
+                if abs(reps[side][sq] - ref[sq][k]) > 1e-7 + 2e-5 * scale + ptol / abs(Vb[0]):
+                    res.fail("C/trafo-seq%d/%s" % (sq, net.trafo.at[idx, "vector_group"]), element=["trafo", int(idx)], side=side,
+                             reported_ka=[reps[side][sq].real, reps[side][sq].imag], model_ka=[ref[sq][k].real, ref[sq][k].imag])
 
     if not balanced:
         res.nontrivial = bool(unequal_live and has_element_node)
@@ -494,10 +597,10 @@ def check(case):
             continue
         for x in PHASES:
             vmx, vax = float(rb3.at[b, "vm_%s_pu" % x]), float(rb3.at[b, "va_%s_degree" % x])
-            if abs(vmx - vm) > 2e-6:
+            if abs(vmx - vm) > VM_TOL:
                 bad.append(("vm", dict(bus=int(b), phase=x, sym=vm, ph=vmx)))
             d = (vax - va - shift[x] + 180.0) % 360.0 - 180.0
-            if abs(d) > 2e-4:
+            if abs(d) > VA_TOL:
                 bad.append(("va", dict(bus=int(b), phase=x, sym=va, ph=vax, expected_shift=shift[x])))
         ub = float(rb3.at[b, "unbalance_percent"])
         if not (ub <= 1e-4):
@@ -537,11 +640,21 @@ def check(case):
                                                    ph=[rep[k].real, rep[k].imag])))
                 break
     if bad:
-        known_cause = sorted(c for c in causes if not c.startswith("other"))
-        if known_cause and not any(c.startswith("other") for c in causes):
-            sig = "A/" + "+".join(known_cause)
-        else:
-            sig = "A/other/" + bad[0][0]
-        res.fail(sig, first=bad[0][1], quantities=sorted({q for q, _ in bad}), n=len(bad), opt=opt)
+        # deviations are attributed to the root causes proven by the balance oracle on this very case, as far as these
+        # can explain the deviating quantity; everything else is a separate failure
+        reach = {"storage-ignored": None, "slack-bus-demand": {"ext_grid-power"}, "slack-ext-grid-duplicated": {"ext_grid-power"},
+                 "slack-zero-seq-admittance": {"ext_grid-power"}}
+        rest = []
+        hit = set()
+        for qn, det in bad:
+            cs = [c for c in sorted(causes) if c in reach and (reach[c] is None or qn in reach[c])]
+            if cs:
+                hit.update(cs)
+            else:
+                rest.append((qn, det))
+        for c in sorted(hit):
+            res.fail("A/" + c, first=bad[0][1], quantities=sorted({qn for qn, _ in bad}), n=len(bad), opt=opt)
+        if rest:
+            res.fail("A/other/" + rest[0][0], first=rest[0][1], quantities=sorted({qn for qn, _ in rest}), n=len(rest), opt=opt)
     res.nontrivial = bool(has_element_node and flow)
     return res
